@@ -609,11 +609,19 @@ def run(tier, seed):
             if all(k == "skip" for k in kinds):
                 continue
             chk.count(f"node:{op}:{form}")
-            if all(k == "exc" for k in kinds if k != "skip"):
-                chk.count(f"refused:{op}:{outcomes[0][i][1] if kinds[0] == 'exc' else 'exc'}")
+            excs = [(s_idx, o[i][1]) for s_idx, o in enumerate(outcomes) if o[i][0] == "exc"]
+            if any(e == "RecursionError" for _s, e in excs):
+                # the out= fix-up `multiply(out, mul, out=out)` re-entering the dispatcher without end
+                s_idx = [s_ for s_, e in excs if e == "RecursionError"][0]
+                chk.fail(f"{op}|recursion", f"{op} ({form}): RecursionError (in-place / out= result whose coefficient is not 1 on an array whose own unit simplifies to a coefficient)",
+                         {"python": make_snippet(P, gs, custom, spellings[s_idx], i, "recursion"), "program": describe(P, gs, i),
+                          "spelling": [gs[g][1][k] for (_v, g), k in zip(P.leaves, spellings[s_idx])]})
+                return
+            if excs and len(excs) == len([k for k in kinds if k != "skip"]):
+                chk.count(f"refused:{op}:{excs[0][1]}")
                 # refused in every spelling: no result, nothing to compare — but the refusal of an
                 # operation the property covers on commensurable operands is reported
-                chk.fail(f"{op}|refused", f"{op} ({form}) on commensurable zero-offset quantities raised {[o[i][1] for o in outcomes if o[i][0] == 'exc'][0]} in every spelling",
+                chk.fail(f"{op}|refused|{excs[0][1]}", f"{op} ({form}) on commensurable zero-offset quantities raised {excs[0][1]} in every spelling",
                          {"python": make_snippet(P, gs, custom, spellings[0], i, "refused"), "program": describe(P, gs, i)})
                 return
             bad = None
@@ -622,7 +630,7 @@ def run(tier, seed):
                 if k == "skip":
                     continue
                 if k == "exc":
-                    bad = (s_idx, "raise-asym", f"raised {v} in one spelling but not in another")
+                    bad = (s_idx, f"raise-asym|{v}", f"raised {v} in one spelling but not in another")
                     break
                 why = compare_node(nd, v, P, o)
                 if why:
@@ -1133,6 +1141,16 @@ def run(tier, seed):
     if not (float(si_of(h1)) == float(si_of(h2)) == 1.0):
         chk.fail("heaviside|si", "heaviside(2 km, 0.5 km) and heaviside(2000 m, 500 m) differ / are not the pure number 1",
                  {"python": hdr + "a = np.heaviside(unyt_quantity(2.0, 'km'), unyt_quantity(0.5, 'km'))\nb = np.heaviside(unyt_quantity(2000.0, 'm'), unyt_quantity(500.0, 'm'))\nassert float(SI(a)) == float(SI(b)) == 1.0, (a, b)\n"})
+
+    try:
+        xq = unyt_array([1.0, 2.0], "km/m")
+        xq *= 2
+        ok = bool(np.all(si_of(xq) == np.array([2000.0, 4000.0])))
+    except RecursionError:
+        ok = False
+    if not ok:
+        chk.fail("multiply|recursion", "x = unyt_array([1., 2.], 'km/m'); x *= 2 raises RecursionError",
+                 {"python": hdr + "x = unyt_array([1.0, 2.0], 'km/m')\nx *= 2\nassert np.all(SI(x) == np.array([2000.0, 4000.0])), x\n"})
 
     chk.assumptions = [
         "kernels whose homogeneity class is assumed, not proved: fmod, fmax/fmin (NaN handling aside they are max/min), nextafter, copysign, arctan2, matmul/vecdot (finite sums of products)",
